@@ -114,11 +114,16 @@ def r_stmts(ss):
 
 
 def r_fn(f):
+    """optional shape fields: attrs [text], vis, quals (async / unsafe / const ..), generics, ret"""
     ps = []
     for name, ptxt, t in f["params"]:
         ps.append("%s: %s" % (ptxt if ptxt is not None else name, r_qty(t)))
     body = "\n    ".join(r_stmt(s) for s in f["body"])
-    head = ("#[tauri::command]\n" if f.get("cmd") else "") + "fn %s(%s) {\n    %s\n}\n" % (f["name"], ", ".join(ps), body)
+    attrs = "".join(a + "\n" for a in f.get("attrs", []))
+    sig = " ".join(x for x in (f.get("vis"), f.get("quals"), "fn") if x)
+    ret = (" -> " + f["ret"]) if f.get("ret") else ""
+    head = (attrs + ("#[tauri::command]\n" if f.get("cmd") else "") +
+            "%s %s%s(%s)%s {\n    %s\n}\n" % (sig, f["name"], f.get("generics", ""), ", ".join(ps), ret, body))
     if f.get("wrap") == "impl":
         return "struct Holder;\nimpl Holder {\n%s}\n" % head
     if f.get("wrap") == "mod":
@@ -127,7 +132,7 @@ def r_fn(f):
 
 
 def rust_files(case):
-    return [{"name": f["name"], "src": "\n".join(r_fn(fn) for fn in f["fns"]) or "// empty\n"} for f in case["files"]]
+    return [{"name": f["name"], "src": (f.get("prelude", "") + "\n".join(r_fn(fn) for fn in f["fns"])) or "// empty\n"} for f in case["files"]]
 
 
 def has_command(case):
@@ -317,12 +322,13 @@ def rand_name(rng, alphabet="abcdefgxyzABXZ019_-", maxlen=10):
 class Gen:
     """Builds one function body statement by statement, keeping track of what is in scope."""
 
-    def __init__(self, rng, dirty, pool):
+    def __init__(self, rng, dirty, pool, scope=None, receivers=None):
+        self.receivers = receivers
         self.rng = rng
         self.dirty = dirty              # may use constructs inside the recorded classes
         self.pool = pool                # event names used so far in this case
         self.fresh = 0
-        self.scope = list(SIMPLE_VARS)  # variables whose type the tool and the property agree on
+        self.scope = list(SIMPLE_VARS if scope is None else scope)  # variables whose type the tool and the property agree on
 
     def new_var(self, prefix="v"):
         self.fresh += 1
@@ -349,7 +355,7 @@ class Gen:
         rng = self.rng
         if rng.random() < 0.12:
             return rng.choice(NON_RECEIVERS), False
-        return rng.choice(DOC_RECEIVERS), True
+        return rng.choice(self.receivers or DOC_RECEIVERS), True
 
     def payload(self, pre):
         """returns a payload expression; may append preparatory let statements to pre"""
@@ -367,7 +373,7 @@ class Gen:
             return rng.choice([SL("done"), ["lit", "int"], ["lit", "float"], ["lit", "bool"], ["tuple", []], ["lit", "other"]])
         if x < 0.36:
             return wrap(["struct", rng.choice([["User"], ["Progress"], ["models", "Progress"], ["crate", "events", "Tick"]])])
-        if x < 0.56:
+        if x < 0.56 and self.scope:
             return wrap(V(rng.choice(self.scope)))
         if x < 0.70:
             v = self.new_var()
@@ -375,7 +381,7 @@ class Gen:
             pre.append(["let", ["typed", v, t], ["call", V("make"), []] if rng.random() < 0.8 else None])
             self.scope.append(v)
             return wrap(V(v))
-        if x < 0.78:
+        if x < 0.78 and self.scope:
             v = self.new_var()
             init = rng.choice([["struct", ["User"]], V(rng.choice(self.scope)), ["ref", V(rng.choice(self.scope))], ["ref", ["struct", ["Progress"]]]])
             pre.append(["let", ["ident", v, rng.random() < 0.3], init])
@@ -496,6 +502,48 @@ def ident(n):
     return "on" + "".join(out)
 
 
+PRELUDE = ("use std::sync::OnceLock;\nuse tauri::{AppHandle, Emitter};\n"
+           "static APP: OnceLock<AppHandle> = OnceLock::new();\nstatic GLOBALS: Globals = Globals::new();\n\n")
+STATIC_APP = M(M(V("APP"), "get"), "unwrap")
+# receivers that need no parameter: method-call results on a global, fields of a global value
+FREE_RECEIVERS = [STATIC_APP, M(STATIC_APP, "clone"), M(["call", V("handle"), []], "clone"), M(P("crate", "APP"), "get_unchecked"),
+                  ["field", V("GLOBALS"), "window"], ["field", ["call", V("globals"), []], "app"],
+                  M(M(V("GLOBALS"), "windows"), "main")]
+ATTRS = [[], [], ["#[allow(dead_code)]"], ["/// emits progress"], ["#[inline]", "#[must_use]"], ["#[cfg(test)]"], ["#[tokio::main]"], ["#[test]"]]
+VIS = [None, None, "pub", "pub(crate)"]
+QUALS = [None, None, "async", "unsafe", "const", "pub(super) async" ]
+NONHANDLE_PARAMS = [["user", None, TY("User")], ["count", None, TY("u32")], ["title", None, TY("String")]]
+
+
+def fn_shape(rng, kind=None):
+    """shape of the enclosing function: where the handle comes from, parameters, qualifiers.
+    Returns fn fields plus the generator's scope (typed variables) and usable receivers."""
+    kind = kind or rng.choice(["std", "std", "std", "none-static", "none-local", "nonhandle-static", "nonhandle-local", "only-handle"])
+    sh = {"cmd": rng.random() < 0.4, "attrs": list(rng.choice(ATTRS)), "vis": rng.choice(VIS), "quals": rng.choice(QUALS),
+          "ret": rng.choice([None, None, "Result<(), String>", "tauri::Result<()>"]), "body": [], "receivers": None}
+    if sh["quals"] and sh["quals"].startswith("pub"):
+        sh["vis"] = None
+    if kind == "std":
+        sh["params"], sh["scope"] = [list(p) for p in STD_PARAMS], list(SIMPLE_VARS)
+        if rng.random() < 0.2:
+            sh["params"].append([None, "(a, b)", ["tuple", [TY("i32"), TY("i32")]]])
+    elif kind == "only-handle":
+        sh["params"], sh["scope"] = [["app", "mut app" if rng.random() < 0.3 else None, rng.choice([APP_T, ["ref", APP_T]])]], []
+        sh["receivers"] = [V("app"), M(V("app"), "handle"), M(V("app"), "clone")]
+    else:
+        sh["params"] = [] if kind.startswith("none") else [list(p) for p in NONHANDLE_PARAMS]
+        sh["scope"] = [] if kind.startswith("none") else ["user", "count", "title"]
+        if kind.endswith("static"):
+            sh["receivers"] = list(FREE_RECEIVERS)
+        else:
+            local = rng.choice(["app", "window", "webview"])
+            sh["body"] = [["let", ["ident", local, rng.random() < 0.2], rng.choice([M(STATIC_APP, "clone"), ["call", V("handle"), []], STATIC_APP])]]
+            sh["receivers"] = [V(local), M(V(local), "clone"), V(local)]
+        if kind.startswith("none") and sh["cmd"] and rng.random() < 0.5:
+            sh["cmd"] = False
+    return sh
+
+
 def command_fn(i):
     return {"name": "ping_%d" % i, "cmd": True, "wrap": None, "params": [], "body": []}
 
@@ -507,7 +555,8 @@ def structured_case(rng, dirty):
     total_sites = rng.randint(1, 6)
     nfns = rng.randint(1, max(1, min(3, total_sites)))
     per_fn = [[] for _ in range(nfns)]
-    gens = [Gen(rng, dirty, pool) for _ in range(nfns)]
+    shapes = [fn_shape(rng) for _ in range(nfns)]
+    gens = [Gen(rng, dirty, pool, scope=sh.pop("scope"), receivers=sh.pop("receivers")) for sh in shapes]
     for s in range(total_sites):
         k = rng.randrange(nfns)
         g = gens[k]
@@ -517,10 +566,7 @@ def structured_case(rng, dirty):
         per_fn[k].extend(pre + g.nest(last, rng.choice([0, 0, 1, 1, 2, 3])))
     fns = []
     for k in range(nfns):
-        params = [list(p) for p in STD_PARAMS]
-        if rng.random() < 0.2:
-            params.append([None, "(a, b)", ["tuple", [TY("i32"), TY("i32")]]])
-        fns.append({"name": "work_%d" % k, "cmd": rng.random() < 0.5, "wrap": None, "params": params, "body": per_fn[k]})
+        fns.append(dict(shapes[k], name="work_%d" % k, wrap=None, body=shapes[k]["body"] + per_fn[k]))
     for i in range(nfiles):
         files.append({"name": "src/%s.rs" % ["lib", "events", "jobs/worker"][i], "fns": []})
     for k, fn in enumerate(fns):
@@ -531,6 +577,8 @@ def structured_case(rng, dirty):
                 fn["cmd"] = False
     elif not any(fn["cmd"] for f in files for fn in f["fns"]):
         files[0]["fns"].append(command_fn(0))
+    for f in files:
+        f["prelude"] = PRELUDE
     return {"files": files, "zod": rng.random() < 0.3}
 
 
@@ -576,6 +624,56 @@ def enum_placements():
             for pname, body in placements(e).items():
                 i += 1
                 cases.append(single(body, zod=(i % 7 == 0)))
+    return cases
+
+
+def enum_fnshapes():
+    """the enclosing function: no parameters / only non-handle parameters / handle from a static, a local
+    let, a method call, a field of a global value / a parameter; sync, async, unsafe, const; visibility;
+    attributes; command or not - crossed with receiver forms that fit and a few placements"""
+    cases = []
+    shapes = [
+        ("none", [], []), ("nonhandle", [list(p) for p in NONHANDLE_PARAMS], []),
+        ("only-handle", [["app", None, ["ref", APP_T]]], []),
+        ("local-app", [], [["let", ["ident", "app", False], M(STATIC_APP, "clone")]]),
+        ("local-window", [], [["let", ["ident", "window", True], ["call", V("main_window"), []]]]),
+        ("local-typed", [], [["let", ["typed", "webview", WV_T], ["call", V("webview"), []]]]),
+        ("nonhandle-local", [["count", None, TY("u32")]], [["let", ["ident", "app", False], ["ref", STATIC_APP]]]),
+    ]
+    free = {"static-chain": STATIC_APP, "static-clone": M(STATIC_APP, "clone"), "call-clone": M(["call", V("handle"), []], "clone"),
+            "global-field": ["field", V("GLOBALS"), "window"], "call-field": ["field", ["call", V("globals"), []], "app"],
+            "plain-call (must not count)": ["call", V("handle"), []], "static itself (must not count)": V("APP")}
+    deco = [(a, v, q, c) for a in ([], ["#[allow(dead_code)]"], ["#[cfg(test)]"]) for v in (None, "pub") for q in (None, "async") for c in (False, True)]
+    deco += [(["#[tokio::main]"], None, "async", False), ([], "pub(crate)", "unsafe", False), ([], None, "const", False),
+             (["/// doc", "#[inline]"], "pub", None, False), (["#[test]"], None, None, False)]
+    i = 0
+    for sname, params, pre in shapes:
+        if sname in ("none", "nonhandle"):
+            recvs = list(free.values())
+        else:
+            local = "app" if "app" in str(pre) or sname == "only-handle" else ("window" if "window" in str(pre) else "webview")
+            recvs = [V(local), M(V(local), "clone"), ["field", V("GLOBALS"), "app"]]
+        for r in recvs:
+            for (attrs, vis, quals, cmd) in deco:
+                i += 1
+                e = EMIT_TO(r, "shape-evt", ["struct", ["Heartbeat"]]) if i % 3 == 0 else EMIT(r, "shape-evt", ["struct", ["Heartbeat"]])
+                pl = list(placements(e).values())
+                body = pre + pl[i % len(pl)]
+                fn = {"name": "emitter", "cmd": cmd, "wrap": None, "params": [list(q) for q in params], "body": body,
+                      "attrs": attrs, "vis": vis, "quals": quals, "ret": "Result<(), String>" if i % 4 == 0 else None}
+                fns = [fn] + ([] if cmd and i % 2 else [command_fn(0)])
+                cases.append({"files": [{"name": "src/lib.rs", "prelude": PRELUDE, "fns": fns}], "zod": i % 5 == 0})
+    # the seeded demo: control with a parameter, two parameterless emitters, four names
+    hb = {"name": "heartbeat", "cmd": False, "wrap": None, "params": [], "vis": "pub",
+          "body": [["expr", M(EMIT(STATIC_APP, "worker-heartbeat", ["struct", ["Heartbeat"]]), "ok")]]}
+    sd = {"name": "shutdown", "cmd": False, "wrap": None, "params": [], "vis": "pub",
+          "body": [["let", ["ident", "app", False], M(STATIC_APP, "clone")],
+                   ["expr", ["if", [["expr", M(EMIT(V("app"), "worker-failed", SL("flush failed")), "ok")]],
+                             ["block", [["expr", M(EMIT_TO(V("app"), "worker-stopped", ["lit", "int"]), "ok")]]]]]]}
+    ns = {"name": "notify_started", "cmd": False, "wrap": None, "params": [["app", None, ["ref", TY("AppHandle")]]], "vis": "pub",
+          "body": [["expr", M(EMIT(V("app"), "worker-started", ["lit", "bool"]), "unwrap")]]}
+    cases.append({"files": [{"name": "src/main.rs", "prelude": PRELUDE, "fns": [command_fn(0), ns, hb, sd]}], "zod": False})
+    cases.append({"files": [{"name": "src/main.rs", "prelude": PRELUDE, "fns": [command_fn(0), hb]}], "zod": True})
     return cases
 
 
